@@ -25,7 +25,7 @@ Inductive uop :=
 | ODgram (client cip : N) (k : dkind)
 | OExpireAll.                    (* idle for longer than the NAT timeout: every association expires *)
 
-Record robs := { r_from : bytes; r_body : N * N; r_tb : Z; r_cb : Z }.   (* reply seen by the client + its report *)
+Record robs := { r_status : N; r_from : bytes; r_body : N * N; r_tb : Z; r_cb : Z }.   (* reply seen by the client + its report *)
 Record dobs := {
   d_sent : option (N * (N * N));          (* forwarded: (socket index, (payload length, checksum)) *)
   d_new : option bytes;                   (* AddUDPNatEntry with this key ID *)
@@ -35,18 +35,49 @@ Record dobs := {
 }.
 Record case := { c_cfg : list (N * N * N); c_validate : bool; c_ops : list uop; c_obs : list dobs }.
 
-Definition target_addr (akind port : N) : bytes :=
+(* target kinds, mirrored by the harness table (netsetup.go targetKinds) *)
+Definition v4 (a b c d : N) : N := a * 2^24 + b * 2^16 + c * 2^8 + d.
+Definition ip_203 := v4 203 0 113 77.
+Definition ip_10 := v4 10 99 0 1.
+Definition pub6 : N := 8193 * 2^112 + 3512 * 2^96 + 119 * 2^80 + 1.      (* 2001:db8:77::1 *)
+Definition ula6 : N := 64768 * 2^112 + 153 * 2^96 + 1.                   (* fd00:99::1 *)
+Definition str (s : list N) := s.
+Definition target_host (akind : N) : option host :=
   match akind with
-  | 0 => encode_addr {| sa_host := HostV4 (127 * 2^24 + 1); sa_port := port |}
-  | 1 => encode_addr {| sa_host := HostV6 1; sa_port := port |}
-  | 2 => encode_addr {| sa_host := HostDomain [108;111;99;97;108;104;111;115;116]; sa_port := port |}
-  | 3 => encode_addr {| sa_host := HostDomain [49;50;55;46;48;46;48;46;49]; sa_port := port |}
-  | _ => [9; 1; 2; 3; 4; 5; 6]
+  | 0 => Some (HostV4 (v4 127 0 0 1))
+  | 1 => Some (HostV6 1)
+  | 2 => Some (HostDomain [108;111;99;97;108;104;111;115;116])            (* "localhost" *)
+  | 3 => Some (HostDomain [49;50;55;46;48;46;48;46;49])                    (* "127.0.0.1" *)
+  | 4 => Some (HostV4 ip_203)
+  | 5 => Some (HostV4 ip_10)
+  | 6 => Some (HostV4 (v4 100 64 0 9))
+  | 7 => Some (HostV4 (v4 192 168 99 1))
+  | 8 => Some (HostV4 (v4 172 16 99 1))
+  | 10 => Some (HostV4 (v4 169 254 9 9))
+  | 11 => Some (HostV6 pub6)
+  | 12 => Some (HostV6 ula6)
+  | 13 => Some (HostV6 (65535 * 2^32 + ip_10))                               (* ::ffff:10.99.0.1 *)
+  | 14 => Some (HostV6 (65535 * 2^32 + ip_203))                              (* ::ffff:203.0.113.77 *)
+  | 15 => Some (HostDomain [50;48;51;46;48;46;49;49;51;46;55;55])          (* "203.0.113.77" *)
+  | _ => None
   end.
-Definition target_ip (akind : N) : ip := match akind with 1 => V16 1 | _ => V4 (127 * 2^24 + 1) end.
+Definition target_addr (akind port : N) : bytes :=
+  match target_host akind with
+  | Some h => encode_addr {| sa_host := h; sa_port := port |}
+  | None => [9; 1; 2; 3; 4; 5; 6]
+  end.
+(* the address a reply from this target comes from (the socket the sink is bound to) *)
+Definition target_ip (akind : N) : ip :=
+  match akind with
+  | 1 => V16 1 | 4 | 14 | 15 => V4 ip_203 | 5 | 13 => V4 ip_10 | 6 => V4 (v4 100 64 0 9) | 7 => V4 (v4 192 168 99 1)
+  | 8 => V4 (v4 172 16 99 1) | 10 => V4 (v4 169 254 9 9) | 11 => V16 pub6 | 12 => V16 ula6
+  | _ => V4 (v4 127 0 0 1)
+  end.
+(* net.ResolveUDPAddr on the domain names the harness uses *)
+Definition resolve (d : bytes) : option ip :=
+  if bytes_eqb d [50;48;51;46;48;46;49;49;51;46;55;55] then Some (V4 ip_203) else Some (V4 (v4 127 0 0 1)).
 
-Definition the_uenv (validate : bool) : uenv :=
-  {| ue_validate := validate; ue_resolve := fun _ => Some (V4 (127 * 2^24 + 1)) |}.
+Definition the_uenv (validate : bool) : uenv := {| ue_validate := validate; ue_resolve := resolve |}.
 
 Definition dgram_of (e : env) (i : N) (k : dkind) : env * list wbyte :=
   match k with
@@ -63,20 +94,30 @@ Definition dgram_of (e : env) (i : N) (k : dkind) : env * list wbyte :=
       (e', firstn (N.to_nat n) (salt ++ ct))
   end.
 
-Fixpoint replies_of (e : env) (st : ustate) (sock : N) (akind tport : N) (i j : N) (rs : list (N * N)) : env * list robs :=
+(* OS oracle: the largest UDP payload the kernel sends (IPv4: 65507, IPv6: 65527); a larger write
+   fails with EMSGSIZE and is reported ERR_WRITE (12) with 0 bytes *)
+Definition max_udp (v6client : bool) : Z := if v6client then 65527%Z else 65507%Z.
+
+Fixpoint replies_of (e : env) (st : ustate) (v6client : bool) (sock : N) (akind tport : N) (i j : N) (rs : list (N * N)) : env * list robs :=
   match rs with
   | [] => (e, [])
   | (len, seed) :: r =>
-      let body := gb len seed in
-      (* the salt of a reply is fresh random data: an opaque raw salt of the right length *)
       let key := match find (fun kv => N.eqb (as_sock (snd kv)) sock) (u_nat st) with Some (_, a) => as_key a | None => mk_key 0 0 end in
+      (* ReadFrom fills at most the space after the reserved header *)
+      let room := Z.to_nat (buf_size - (Z.of_nat (salt_size (k_cipher key)) + max_addr_len)) in
+      let body := firstn room (gb len seed) in
+      (* the salt of a reply is fresh random data: an opaque raw salt of the right length *)
       let salt := raws (gb (N.of_nat (salt_size (k_cipher key))) (i * 77 + j)) in
       let '(e1, res) := udp_reply e st sock (target_ip akind) tport body salt (i * 1000 + 1 + j) in
-      let '(e2, more) := replies_of e1 st sock akind tport i (j + 1) r in
+      let '(e2, more) := replies_of e1 st v6client sock akind tport i (j + 1) r in
       match res with
-      | Ok (ReplySent _ dg _ tb cb) =>
+      | Ok (ReplySent _ dg stc tb cb) =>
           let ab := match reply_addr (target_ip akind) tport with Some x => x | None => [] end in
-          (e2, {| r_from := ab; r_body := (N.of_nat (length body), cksum body); r_tb := tb; r_cb := cb |} :: more)
+          if (max_udp v6client <? cb)%Z
+          then (e2, {| r_status := 12; r_from := []; r_body := (0, cksum []); r_tb := tb; r_cb := 0 |} :: more)
+          else (e2, {| r_status := stc; r_from := ab; r_body := (N.of_nat (length body), cksum body); r_tb := tb; r_cb := cb |} :: more)
+      | Ok (ReplyDropped stc tb) =>
+          (e2, {| r_status := stc; r_from := []; r_body := (0, cksum []); r_tb := tb; r_cb := 0 |} :: more)
       | _ => (e2, more)
       end
   end.
@@ -95,7 +136,7 @@ Fixpoint run_ops (e : env) (validate : bool) (st : ustate) (i : N) (ops : list u
       let '(sent, nw, rep) := obs_of_step evs in
       let '(e2, reps) :=
         match k, sent with
-        | DHonest _ _ _ akind tport _ _ rs, Some (sock, _) => replies_of e1 st' sock akind tport i 0 rs
+        | DHonest _ _ _ akind tport _ _ rs, Some (sock, _) => replies_of e1 st' (cip =? 4) sock akind tport i 0 rs
         | _, _ => (e1, [])
         end in
       {| d_sent := sent; d_new := nw; d_report := rep; d_replies := reps; d_removed := 0 |} :: run_ops e2 validate st' (i + 1) r
@@ -107,7 +148,7 @@ Fixpoint run_ops (e : env) (validate : bool) (st : ustate) (i : N) (ops : list u
 Definition opt_eqb {A} (eqb : A -> A -> bool) (a b : option A) : bool :=
   match a, b with Some x, Some y => eqb x y | None, None => true | _, _ => false end.
 Definition robs_eqb (a b : robs) : bool :=
-  bytes_eqb (r_from a) (r_from b) && (fst (r_body a) =? fst (r_body b)) && (snd (r_body a) =? snd (r_body b))
+  (r_status a =? r_status b) && bytes_eqb (r_from a) (r_from b) && (fst (r_body a) =? fst (r_body b)) && (snd (r_body a) =? snd (r_body b))
   && Z.eqb (r_tb a) (r_tb b) && Z.eqb (r_cb a) (r_cb b).
 Definition dobs_eqb (a b : dobs) : bool :=
   opt_eqb (fun x y => (fst x =? fst y) && (fst (snd x) =? fst (snd y)) && (snd (snd x) =? snd (snd y))) (d_sent a) (d_sent b)
